@@ -16,6 +16,7 @@ let show_label = function
   | LT i -> Printf.sprintf "t%d" (int_of_nat i)
   | LTs j -> Printf.sprintf "s%d" (int_of_nat j)
   | LPat k -> Printf.sprintf "a%d" (int_of_nat k)
+  | LSdp k -> Printf.sprintf "d%d" (int_of_nat k)
 
 let show_labels prefix (l : label list) =
   let ls = Stdlib.List.map show_label l in
@@ -30,13 +31,23 @@ let parse_cfg (s : string) : cfg =
     cf_merge = n_of_int (get l "mw"); cf_record_flv = get l "rec" <> 0;
     cf_chunk = n_of_int 4096; cf_ext_at_limit = get l "extfix" <> 0 }
 
+let broken : (int, unit) Hashtbl.t = Hashtbl.create 8
+
 let parse_events (s : string) : (ev list) * (int * char) list =
   let kinds = ref [] in
+  Hashtbl.reset broken;
   let evs = Stdlib.List.filter_map (fun e ->
       if e = "" then None else
       match String.split_on_char ':' e with
       | ["I"] -> Some EvInStart
-      | ["O"] -> Some EvInStop
+      | ["O"] | ["Oq"] -> Some EvInStop
+      | ["K"] -> None
+      | ["S"; _] -> Some EvSdp
+      | ["D"; id] ->
+        let idn = int_of_string id in
+        if Stdlib.List.mem_assoc idn !kinds then None
+        else begin kinds := (idn, 'd') :: !kinds; Some (EvDescribe (n_of_int idn)) end
+      | ["B"; id] -> Hashtbl.replace broken (int_of_string id) (); None
       | ["P"; t; ts; p] -> Some (EvPublish { GroupMsg.rm_type = n_of_token t; GroupMsg.rm_ts = n_of_token ts; GroupMsg.rm_payload = bytes_of_token p })
       | [j; id] when String.length j = 2 && j.[0] = 'J' ->
         let k = (match j.[1] with 'r' -> KRtmp | 'f' | 'w' -> KFlv | 'p' -> KPush | 't' -> KTs | _ -> failwith "bad kind") in
@@ -60,6 +71,7 @@ let run_hist cfgtok evtok =
       let k = Stdlib.List.assoc id kinds in
       let mine = Stdlib.List.filter (fun x -> int_of_n x.c_id = id) cons in
       let body =
+        if Hashtbl.mem broken id then "!" else
         match k with
         | 'p' ->
           if mine = [] then "-" else String.concat "/" (Stdlib.List.map (fun x -> show_labels "" x.c_out) mine)
@@ -74,7 +86,18 @@ let run_hist cfgtok evtok =
     else parts in
   if parts = [] then "-" else String.concat "|" parts
 
+let show_res = function
+  | Res.Ok b -> token_of_bytes b
+  | Res.Err _ -> "err"
+  | Res.Panic s -> "panic"
+
 let register () =
+  Registry.register "c01.conv" (function
+      | [t; ts; p] ->
+        let m = { GroupMsg.rm_type = n_of_token t; GroupMsg.rm_ts = n_of_token ts; GroupMsg.rm_payload = bytes_of_token p } in
+        Printf.sprintf "%s %s %s" (show_res (GroupFanoutBytes.chunk_bytes false m)) (show_res (GroupFanoutBytes.chunk_bytes true m))
+          (token_of_bytes (GroupFanoutBytes.tag_bytes m))
+      | _ -> "bad-args");
   Registry.register "c01.hist" (function
       | [c; e] -> run_hist c e
       | _ -> "bad-args")
